@@ -137,7 +137,8 @@ def cert_case(args):
         opts['model'] = True
     elif r < .75:
         opts['noop'] = True
-    pick = rng.choice([('--reify-edges',), ('--reify-attributes',), ('--reify-edges', '--reify-attributes')])
+    pick = rng.choice([('--reify-edges',), ('--reify-attributes',), ('--reify-edges', '--reify-attributes'), ('--dereify-edges',),
+                       ('--dereify-edges', '--reify-attributes'), ('--reify-edges', '--dereify-edges')])
     for f in pick:
         opts[f] = True
     if rng.random() < .4:
@@ -147,6 +148,15 @@ def cert_case(args):
         opts['compact'] = True
     mname = 'amr' if opts.get('amr') else 'mini' if opts.get('model') else 'default'
     stream = oracle.gen_stream(rng, mname, canonicalize=bool(opts.get('--canonicalize-roles')))
+    if opts.get('--dereify-edges') and not opts.get('--reify-edges') and rng.random() < .7:
+        # give --dereify-edges something to collapse: the input is the reified form of a generated stream
+        # (reified under the AMR table, whose rows the mini table shares; under the default model nothing collapses)
+        try:
+            r0, c0, _ = oracle.run_cli_inprocess(['--amr', '--reify-edges'], stream, [])
+            if c0 == 0 and r0.strip():
+                stream = r0
+        except Exception:      # noqa: keep the generated stream
+            pass
     tmpdir = tempfile.mkdtemp(prefix='c20c_')
     try:
         mpath = None
@@ -165,11 +175,7 @@ def cert_case(args):
             if code1 == 0 and (out1, code1) != (out2, code2):
                 # the same classification as the oracle in harness/c20.py: the two known findings, else a new failure
                 model = oracle.get_model(opts, models.MINI_AMR if opts.get('model') else None)
-                key = 'idempotence'
-                if opts.get('--reify-attributes') and opts.get('--reify-edges') and oracle.has_inverted_reifiable_attribute([stream], model):
-                    key = 'F30-inverted-reifiable-attribute'
-                elif opts.get('--canonicalize-roles') and opts.get('--reify-edges') and oracle.normalised_inverse_reifiable(out1, model):
-                    key = 'F32-normalised-inverse-role-reified'
+                key = oracle.classify_non_idempotent(opts, [stream], out1, model)
             impl = impl + (key,)
         except common.Timeout:
             impl = ('hang',)
